@@ -330,6 +330,9 @@ def judgeGeom (g : BGeom) (rhs : Tok) : String :=
     match spec with
     | some why => s!"SPEC {cls} {why}"
     | none =>
+      -- more than 2^16 vertices (hugeCorpus): judged by the specification only; running the model's closures — every
+      -- call re-walks the members up to `j` — is quadratic there
+      if vs.length > 50000 then s!"OK {cls}-huge" else
       -- correspondence with the model
       let mLen := lenBits g
       let mPts := pointsBits g
